@@ -98,6 +98,8 @@ func Class(v rel.Value) string {
 		return "union"
 	case rel.GenericSet:
 		return "set"
+	case rel.Closure, *rel.NativeFunction:
+		return "fn"
 	case rel.Tuple:
 		return "tuple"
 	case rel.Set:
